@@ -196,6 +196,13 @@ async fn upstream_udp(k: Arc<Kernel>, plan: Arc<PlanB>, sh: Sh, ui: usize, mut r
                     reply_now(*delay_ms, false, false, false)
                 }
             }
+            UpBehaviour::GarbageFirst { garbage_ms } => {
+                if nth == 1 {
+                    reply_now(*garbage_ms, false, true, false)
+                } else {
+                    reply_now(10, false, false, false)
+                }
+            }
             UpBehaviour::Pattern { mask, delays_ms } => {
                 if nth >= 1 && nth <= 8 && mask & (1 << (nth - 1)) != 0 {
                     reply_now(delays_ms.get(nth as usize - 1).copied().unwrap_or(5), false, false, false)
@@ -781,6 +788,7 @@ fn evaluate(plan: &PlanB, kernel: &Arc<Kernel>, sh: &Sh, sent_at_ns: &[u64], _en
             UpBehaviour::Silent => Some("upstream.silent"),
             UpBehaviour::AnswerFrom { .. } => Some("upstream.first_transmissions_lost"),
             UpBehaviour::Pattern { .. } => Some("upstream.drop_pattern_over_transmissions"),
+            UpBehaviour::GarbageFirst { .. } => Some("upstream.garbage_to_the_first_of_two_overlapping_exchanges"),
             UpBehaviour::Dup { .. } => Some("upstream.duplicate_reply"),
             UpBehaviour::WrongId => Some("upstream.wrong_id_reply"),
             UpBehaviour::Tc => Some("upstream.truncated_udp_reply"),
@@ -1102,7 +1110,10 @@ fn evaluate(plan: &PlanB, kernel: &Arc<Kernel>, sh: &Sh, sent_at_ns: &[u64], _en
                         age_lo = (d_ns / 1_000_000_000) as u32;
                         let min_ttl = um.answer.iter().chain(um.authority.iter()).chain(um.additional.iter()).filter(|r| r.rtype != T_OPT).map(|r| r.ttl).min().unwrap_or(0);
                         age = ((arrive_hi - rep.handed_ns) / 1_000_000_000) as u32;
-                        if d_ns > min_ttl as u64 * 1_000_000_000 {
+                        /* (a reply without records has no smallest TTL; a record-less response is
+                         * attributed by rcode only and may be erbium's own cached error) */
+                        let has_records = !(um.answer.is_empty() && um.authority.is_empty() && um.non_opt_additional().is_empty());
+                        if has_records && d_ns > min_ttl as u64 * 1_000_000_000 {
                             res.violate("C06", "C06.stale_entry_served", format!("reply #{} (min TTL {} s) was obtained at {} ns and served from cache at {} ns ({} ns later)", rep.serial, min_ttl, rep.handed_ns, sent_at_ns[qi], d_ns), qi);
                         }
                         if d_ns == min_ttl as u64 * 1_000_000_000 {
@@ -1136,7 +1147,8 @@ fn evaluate(plan: &PlanB, kernel: &Arc<Kernel>, sh: &Sh, sent_at_ns: &[u64], _en
                         if held_ns > 0 {
                             res.probe("C06.reply_held_before_it_was_sent_on");
                         }
-                        if held_ns > min_ttl as u64 * 1_000_000_000 && held_ns > 50_000_000 {
+                        let has_records = !(um.answer.is_empty() && um.authority.is_empty() && um.non_opt_additional().is_empty());
+                        if has_records && held_ns > min_ttl as u64 * 1_000_000_000 && held_ns > 50_000_000 {
                             res.violate(
                                 "C06",
                                 "C06.stale_data_sent",
